@@ -3,13 +3,15 @@
    OP 2 RET: the frame is popped and the caller's registers come back.
    OP 3 CALLCC: the continuation captures exactly stack[0, top+4).
    OP 4 RESUMECC: re-entering restores the captured words and registers and delivers the value.
-   OP 5 sexp_grow_stack: contents preserved, limit respected. */
+   OP 5 sexp_grow_stack: contents preserved, limit respected.
+   OP 7 make_call (the shared tail of CALL / TAIL_CALL / APPLY1 / CALLCC): applicability, arity, rest list,
+        frame header. */
 #include "kit.h"
 #include "kitfull.h"
 enum { VM_EXIT_NEXT = 1, VM_EXIT_LOOP, VM_EXIT_ERROR, VM_EXIT_END, VM_EXIT_MAKE_CALL, VM_EXIT_APPLY1, VM_EXIT_CHECK_TYPE };
 #define DECL(op) int vm_slice_##op(sexp ctx, sexp *self_io, sexp *stack, sexp_sint_t *top_io, sexp_sint_t *fp_io, unsigned char **ip_io, sexp *cp_io, sexp *bc_io, sexp *tmp1_io, sexp_sint_t *i_io);
 KIT_C_BEGIN
-DECL(TAIL_CALL) DECL(RET) DECL(CALLCC) DECL(RESUMECC)
+DECL(TAIL_CALL) DECL(RET) DECL(CALLCC) DECL(RESUMECC) DECL(LABEL_make_call)
 int vm_export_grow_stack(sexp ctx, int min_size);
 KIT_C_END
 
@@ -94,6 +96,10 @@ void harness(void) {
 #if OP == 4
   /* later: the stack has changed arbitrarily; k is applied to v.  Frame of the resumer: [v][1][ip][k][fp] */
   for (int q = 0; q < DEPTH; q++) stack[q] = kit_any_fixnum();
+  /* ... "arbitrarily" includes words that happen to equal the captured ones (another activation of the same
+     call site at the same depth has the same frame header over different arguments): each word below the
+     captured top is either anything or the captured word */
+  for (int q = 0; q < T + 4; q++) if (nondet_bool()) stack[q] = sexp_vector_data(saved)[q];
   sexp v = kit_flonum(9.0);
   sexp_sint_t rfp = nondet_sword();
   __CPROVER_assume(rfp >= 1 && rfp <= 12);
@@ -105,6 +111,58 @@ void harness(void) {
   KIT_ASSERT(top == T && stack[T-1] == v, "the passed value is delivered where call/cc's result is expected");
   for (int q = 0; q < 5; q++) if (q < T - 1) KIT_ASSERT(stack[q] == MARK(q), "the stack contents captured by the continuation are restored");
   KIT_ASSERT(fp == cfp && self == cur && bc == callee_bc && ip == sexp_bytecode_data(callee_bc) + ipoff, "registers of the capturing point are restored");
+#endif
+#elif OP == 7
+  /* callee: NA fixed parameters, variadic or not, rest parameter used or not (per query); i actual arguments (free, 0..3).
+     Stack: BASE marker words, the i arguments (first argument highest), the callee on top. */
+  sexp callee = mk_proc(callee_bc, kit_vector(1));
+  sexp_procedure_num_args(callee) = NA;
+  sexp_procedure_flags(callee) = sexp_make_fixnum((VARIADIC ? SEXP_PROC_VARIADIC : 0) | (UNUSED_REST ? SEXP_PROC_UNUSED_REST : 0));
+  sexp_bytecode_max_depth(callee_bc) = 8;
+  sexp arg[3] = { kit_flonum(1.0), kit_flonum(2.0), kit_flonum(3.0) };
+  sexp_sint_t base = 3, i = nondet_sword(), fp0 = nondet_sword(), ipoff = nondet_sword();
+  __CPROVER_assume(i >= 0 && i <= 3 && fp0 >= 0 && fp0 < 1000 && ipoff >= 8 && ipoff <= 32 && (ipoff & 7) == 0);
+  for (int m = 0; m < 3; m++) if (m < i) stack[base + (i - 1 - m)] = arg[m];          /* argument m sits at top-2-m */
+  top = base + i;
+#if CALLEE_KIND == 0
+  sexp target = callee;
+#elif CALLEE_KIND == 1
+  sexp target = kit_pair(SEXP_ONE, SEXP_NULL);      /* not applicable */
+#else
+  sexp target = sexp_make_fixnum(5);                /* not applicable */
+#endif
+  stack[top++] = target;
+  sexp_sint_t top0 = top;
+  self = cur; bc = caller_bc; cp = SEXP_FALSE; fp = fp0;
+  ip = sexp_bytecode_data(caller_bc) + ipoff;
+  tmp1 = target; iout = i;
+  int ex = vm_slice_LABEL_make_call(ctx, &self, stack, &top, &fp, &ip, &cp, &bc, &tmp1, &iout);
+  for (int k = 0; k < base; k++) KIT_ASSERT(stack[k] == MARK(k), "words below the arguments are untouched");
+#if CALLEE_KIND != 0
+  KIT_ASSERT(ex == VM_EXIT_ERROR && sexp_exceptionp(stack[top-1]), "applying a non-procedure raises an error object");
+#else
+  if (i < NA || (i > NA && !VARIADIC)) {
+    KIT_ASSERT(ex == VM_EXIT_ERROR && sexp_exceptionp(stack[top-1]), "a call with the wrong number of arguments raises an error object");
+    KIT_ASSERT(self == cur && fp == fp0, "and control stays in the caller");
+  } else {
+    sexp_sint_t nargs = (VARIADIC && !UNUSED_REST) ? NA + 1 : i;
+    sexp_sint_t P = base + nargs;                    /* slot of the argument count */
+    KIT_ASSERT(ex == VM_EXIT_NEXT, "the call proceeds");
+    KIT_ASSERT(top == P + 4 && fp == P, "the frame header sits right above the (re-packed) arguments");
+    KIT_ASSERT(stack[P] == sexp_make_fixnum(nargs), "argument count as the callee expects it");
+    KIT_ASSERT(stack[P+1] == sexp_make_fixnum(ipoff + sizeof(sexp)) && stack[P+2] == cur && stack[P+3] == sexp_make_fixnum(fp0), "return address, caller procedure and caller frame pointer are saved");
+    KIT_ASSERT(self == callee && bc == callee_bc && ip == sexp_bytecode_data(callee_bc) && cp == sexp_procedure_vars(callee), "registers switch to the callee");
+    for (int m = 0; m < 3; m++) if (m < NA) KIT_ASSERT(stack[P-1-m] == arg[m], "fixed parameter m receives argument m");
+#if VARIADIC && !UNUSED_REST
+    sexp rest = stack[P-1-NA];
+    for (int m = NA; m < 3; m++) {
+      if (m < i) { KIT_ASSERT(sexp_pairp(rest) && sexp_car(rest) == arg[m], "the rest list holds the extra arguments in order"); rest = sexp_cdr(rest); }
+    }
+    KIT_ASSERT(rest == SEXP_NULL, "and nothing else");
+#elif VARIADIC
+    for (int m = 0; m < 3; m++) if (m < i) KIT_ASSERT(stack[P-1-m] == arg[m], "with an unused rest parameter the arguments stay in place");
+#endif
+  }
 #endif
 #elif OP == 5
   sexp_sint_t t = nondet_sword(), want = WANT;    /* requested minimum size enumerated per query */
